@@ -762,6 +762,10 @@ impl<'b, 'a: 'b> FmtVisitor<'a> {
         // or it can be on the same line as the last attribute.
         // So here we need to take a minimum between the two.
         let lo = std::cmp::min(attrs_end + 1, first_line);
+        // The skipped range is in lines of the output. The snippet is copied as is, so its lines
+        // keep their distance from the first line of the item.
+        let item_first_line = self.psess.line_of_byte_pos(source!(self, item_span).lo());
+        let lo = self.line_number + 1 + lo.saturating_sub(item_first_line);
         self.push_rewrite_inner(item_span, None);
         let hi = self.line_number + 1;
         self.skipped_range.borrow_mut().push((lo, hi));
